@@ -13,8 +13,13 @@ Plug-in of translate/pysrc.py (the module global `pysrc` is injected).  Reads th
   - `_atom_setters` after the class body has run (the `dict.fromkeys` tuple and the case-folding loop are evaluated);
   - which function every class attribute `_tr_*` is bound to (`def` + `staticmethod`, aliases) = `getattr(P_cif, name)`;
   - `_get_atom_setters` (prefix literal, `.lower()`, `.get(key, default)`, `getattr`);
+  - for every setter the condition under which its call returns (`<setter>_ok`: every `leading_float` call of the body succeeds);
+  - the two loop methods `_parse_atom_site_label`, `_parse_atom_site_aniso_label` (class `LoopTx`): statement by statement over
+    `CifRow.Loop` (`keys()` = `names`, `zip(*values())` = `rows`), `CifRow.PState` (`self.stru`, `self.labelindex`, `self.anisotropy`)
+    and the vocabulary `Exc` / `Flow` / `forLoop` / `runSetters` emitted in front of them (`continue` -> `Flow.next`, `break` ->
+    `Flow.brk`, `KeyError` / `IndexError` / `ValueError` / `AttributeError` -> `Flow.raise` / `Except.error` with that kind);
 * recorded as normalised text (compared verbatim by `DS.Props.SrcCifRow`): the pattern of `_psymb`, the statements of
-  `_parse_atom_site_label`, `_parse_atom_site_aniso_label`, `_parseCifBlock`, of `Atom.xyz_cartn` (getter, setter),
+  `_parseCifBlock`, of `Atom.xyz_cartn` (getter, setter),
   `_AtomCartesianCoordinates.__init__/__setitem__`, `Structure.addNewAtom/getLastAtom`, the class-level defaults of `Atom`
   and the two array initialisations of `Atom.__init__`.
 
@@ -139,6 +144,7 @@ class SetterTx:
         self.cur = "a"
         self.locals = {}
         self.calls = []
+        self.lf = []          # conditions under which the `leading_float` calls of the body do not raise
 
     def text_of(self, code, ty):
         if ty == "val":
@@ -161,6 +167,7 @@ class SetterTx:
                 if t != "val":
                     raise U("leading_float of `%s`" % ast.unparse(e.args[0]))
                 d = numlit(e.args[1]) if len(e.args) == 2 else self.lf_default
+                self.lf.append("(CifRow.leadingFloat? %s (%s : α)).isSome" % (c, d))
                 return "(CifRow.numOf %s %s)" % (c, d), "num"
             if f == "str" and len(e.args) == 1 and not e.keywords:
                 c, t = self.expr(e.args[0])
@@ -329,6 +336,333 @@ def lname(name):
     return name.lstrip("_")
 
 
+# ------------------------------------------------------------------------------------------------ the two loop methods
+
+PRELUDE = """/-! ### vocabulary of the two loop methods -/
+
+/-- the exceptions the loop methods can raise (all of them end as `StructureFormatError` in `_parseCifDataSource`) -/
+inductive Exc where
+  | KeyError | IndexError | ValueError | AttributeError
+deriving DecidableEq, Repr
+
+/-- how one round of a `for` body ends: falls off the end / `continue`, `break`, exception -/
+inductive Flow (σ : Type) where
+  | next (s : σ)
+  | brk (s : σ)
+  | raise (e : Exc)
+
+/-- `for x in xs: body` -/
+def forLoop {σ β : Type} (body : σ → β → Flow σ) : σ → List β → Except Exc σ
+  | s, [] => .ok s
+  | s, x :: xs =>
+    match body s x with
+    | .next s' => forLoop body s' xs
+    | .brk s' => .ok s'
+    | .raise e => .error e
+
+/-- a setter `f(a, value)`: `ok value` = the call returns (no `leading_float` of its body raises `ValueError`) -/
+structure Setter (α : Type) where
+  ok : CifRow.Value α → Bool
+  run : CifRow.Atom α → CifRow.Value α → CifRow.Atom α
+
+/-- `for fset, val in zip(prop_setters, values): fset(a, val)` -/
+def runSetters {α : Type} (prop_setters : List (Setter α)) (values : List (CifRow.Value α)) (a : CifRow.Atom α) :
+    Except Exc (CifRow.Atom α) :=
+  forLoop (fun a (p : Setter α × CifRow.Value α) => if p.1.ok p.2 then Flow.next (p.1.run a p.2) else Flow.raise Exc.ValueError)
+    a (prop_setters.zip values)
+
+"""
+
+LEAN_KEYWORDS = {"at", "from", "in", "do", "end", "then", "else", "fun", "let", "have", "show", "match", "with", "if", "by", "open",
+                 "def", "theorem", "where", "for", "return", "instance", "structure", "class", "namespace", "section", "variable"}
+
+
+def is_self_attr(e, attr):
+    return isinstance(e, ast.Attribute) and isinstance(e.value, ast.Name) and e.value.id == "self" and e.attr == attr
+
+
+def const_str(e):
+    return isinstance(e, ast.Constant) and isinstance(e.value, str)
+
+
+class LoopTx:
+    """`_parse_atom_site_label(self, block)` / `_parse_atom_site_aniso_label(self, block)` -> a Lean definition
+
+    `block` is seen through the one loop the method asks for (`block.GetLoop(item)`; `item not in block` = `none`), the parser
+    object through `CifRow.PState` (`self.stru` = `atoms`, `self.labelindex`, `self.anisotropy`), the atom a round works on is
+    a value that is written back when the round ends (appended for `addNewAtom`/`getLastAtom`, at `idx` for `self.stru[idx]`)."""
+
+    def __init__(self):
+        self.n = 0
+        self.vars = {}        # python name -> (lean code, type); types: loop, bool, setters, nat, rows, row, label
+        self.L = []           # emitted lines
+
+    def ident(self, name):
+        if name in LEAN_KEYWORDS or not name.isidentifier() or name in ("self", "lat", "block"):
+            raise U("variable name `%s`" % name)
+        return name
+
+    def fresh(self, base):
+        self.n += 1
+        return "%s%d" % (base, self.n)
+
+    def var(self, e, ty):
+        if isinstance(e, ast.Name) and e.id in self.vars and self.vars[e.id][1] == ty:
+            return self.vars[e.id][0]
+        raise U("`%s` is not a %s" % (ast.unparse(e)[:40], ty))
+
+    # ---- the method -----------------------------------------------------------------------------------------
+    def method(self, fn, lean_name):
+        a = fn.args
+        if [x.arg for x in a.args] != ["self", "block"] or a.defaults or a.vararg or a.kwarg or a.kwonlyargs or a.posonlyargs or fn.decorator_list:
+            raise U("parameters are not (self, block)")
+        body = strip_doc(fn.body)
+        guard = None
+        if body and isinstance(body[0], ast.If):
+            g = body[0]
+            t = g.test
+            if not (isinstance(t, ast.Compare) and len(t.ops) == 1 and isinstance(t.ops[0], ast.NotIn) and const_str(t.left)
+                    and ast.unparse(t.comparators[0]) == "block" and not g.orelse and len(g.body) == 1
+                    and isinstance(g.body[0], ast.Return) and g.body[0].value is None):
+                raise U("`%s`" % norm(g)[:70])
+            guard = t.left.value
+            body = body[1:]
+        if body and isinstance(body[-1], ast.Return) and body[-1].value is None:
+            body = body[:-1]
+        if not body or not isinstance(body[-1], ast.For):
+            raise U("the method does not end with a `for` loop")
+        item = None
+        loopname = None
+        for st in body[:-1]:
+            if not (isinstance(st, ast.Assign) and len(st.targets) == 1 and isinstance(st.targets[0], ast.Name)):
+                raise U("statement `%s`" % norm(st)[:70])
+            tg = self.ident(st.targets[0].id)
+            if tg in self.vars:
+                raise U("`%s` is assigned twice" % tg)
+            v = st.value
+            if isinstance(v, ast.Call) and ast.unparse(v.func) == "block.GetLoop" and len(v.args) == 1 and not v.keywords and const_str(v.args[0]):
+                if item is not None:
+                    raise U("two loops")
+                item = v.args[0].value
+                if guard is not None and guard != item:
+                    raise U("the method tests `%s in block` and reads the loop of `%s`" % (guard, item))
+                loopname = tg
+                self.vars[tg] = (tg, "loop")
+                if guard is not None:
+                    self.L.append("match block_loop with")
+                    self.L.append("| none => Except.ok self0")
+                    self.L.append("| some %s =>" % tg)
+                continue
+            if loopname is None:
+                raise U("statement `%s` before the loop is fetched" % norm(st)[:60])
+            if isinstance(v, (ast.BoolOp, ast.Compare)):
+                parts = v.values if isinstance(v, ast.BoolOp) and isinstance(v.op, ast.Or) else [v]
+                cs = []
+                for c in parts:
+                    if not (isinstance(c, ast.Compare) and len(c.ops) == 1 and isinstance(c.ops[0], ast.In) and const_str(c.left)):
+                        raise U("`%s`" % ast.unparse(v)[:70])
+                    cs.append("%s.names.contains %s" % (self.var(c.comparators[0], "loop"), pysrc.lean_str(c.left.value)))
+                self.L.append("let %s : Bool := (%s)" % (tg, " || ".join(cs)))
+                self.vars[tg] = (tg, "bool")
+            elif isinstance(v, ast.Call) and ast.unparse(v.func) == "P_cif._get_atom_setters" and len(v.args) == 1 and not v.keywords:
+                self.L.append("match get_atom_setters_chk (α := α) %s.names with" % self.var(v.args[0], "loop"))
+                self.L.append("| none => Except.error Exc.AttributeError")
+                self.L.append("| some %s =>" % tg)
+                self.vars[tg] = (tg, "setters")
+            elif isinstance(v, ast.Call) and isinstance(v.func, ast.Attribute) and v.func.attr == "index" and len(v.args) == 1 and not v.keywords \
+                    and const_str(v.args[0]) and isinstance(v.func.value, ast.Call) and not v.func.value.args and not v.func.value.keywords \
+                    and isinstance(v.func.value.func, ast.Attribute) and v.func.value.func.attr == "keys":
+                self.L.append("match %s.names.idxOf? %s with" % (self.var(v.func.value.func.value, "loop"), pysrc.lean_str(v.args[0].value)))
+                self.L.append("| none => Except.error Exc.ValueError")
+                self.L.append("| some %s =>" % tg)
+                self.vars[tg] = (tg, "nat")
+            elif isinstance(v, ast.Call) and ast.unparse(v.func) == "zip" and len(v.args) == 1 and not v.keywords and isinstance(v.args[0], ast.Starred) \
+                    and isinstance(v.args[0].value, ast.Call) and not v.args[0].value.args and not v.args[0].value.keywords \
+                    and isinstance(v.args[0].value.func, ast.Attribute) and v.args[0].value.func.attr == "values":
+                self.L.append("let %s := %s.rows" % (tg, self.var(v.args[0].value.func.value, "loop")))
+                self.vars[tg] = (tg, "rows")
+            else:
+                raise U("statement `%s`" % norm(st)[:70])
+        if item is None:
+            raise U("no `block.GetLoop(…)`")
+        loop = body[-1]
+        if loop.orelse or not isinstance(loop.target, ast.Name):
+            raise U("loop header `%s`" % norm(loop)[:60])
+        rows = self.var(loop.iter, "rows")
+        row = self.ident(loop.target.id)
+        if row in self.vars:
+            raise U("`%s` is assigned twice" % row)
+        self.vars[row] = (row, "row")
+        self.L.append("forLoop (fun (self0 : CifRow.PState α) (%s : List (CifRow.Value α)) =>" % row)
+        st0 = {"self": "self0", "a": None, "apy": None, "attach": None}
+        self.body(list(loop.body), st0, True)
+        self.L[-1] += ") self0 %s" % rows
+        doc = "; ".join(norm(s) for s in strip_doc(fn.body)).replace("-/", "- /")
+        if guard is not None:
+            sig = "(block_loop : Option (CifRow.Loop α))"
+            how = "`block_loop` = the loop of `%s` (`none`: the item is not in the block)" % item
+        else:
+            sig = "(%s : CifRow.Loop α)" % loopname
+            how = "`%s` = `block.GetLoop(%s)`" % (loopname, item)
+        txt = "/-- the loop item `%s` reads -/\ndef %s_item : String := %s\n\n" % (fn.name, lean_name, pysrc.lean_str(item))
+        txt += "/-- `%s(self, block)`; %s, `self0` = the parser object (`stru`, `labelindex`, `anisotropy`), `lat` = `self.stru.lattice`.\n%s -/\n" % (fn.name, how, doc)
+        txt += "def %s (lat : Option (LatData α)) %s (self0 : CifRow.PState α) : Except Exc (CifRow.PState α) :=\n" % (lean_name, sig)
+        return txt + "".join("  " + ln + "\n" for ln in self.L) + "\n"
+
+    # ---- the body of the loop -------------------------------------------------------------------------------
+    def commit(self, st):
+        if st["attach"] is None:
+            return st["self"]
+        if st["attach"] == "append":
+            return "{ %s with atoms := %s.atoms ++ [%s] }" % (st["self"], st["self"], st["a"])
+        return "{ %s with atoms := %s.atoms.set %s %s }" % (st["self"], st["self"], st["attach"][1], st["a"])
+
+    def atom(self, e, st):
+        if isinstance(e, ast.Name) and st["apy"] is not None and e.id == st["apy"]:
+            return st["a"]
+        raise U("`%s` is not the atom of this round" % ast.unparse(e)[:40])
+
+    def simple(self, s, st):
+        """an assignment without control flow; returns True when it was one"""
+        if not (isinstance(s, ast.Assign) and len(s.targets) == 1):
+            return False
+        tg = s.targets[0]
+        # self.<dict>[label] = value
+        if isinstance(tg, ast.Subscript) and (is_self_attr(tg.value, "labelindex") or is_self_attr(tg.value, "anisotropy")):
+            d = tg.value.attr
+            key = self.var(tg.slice, "label")
+            v = s.value
+            if d == "labelindex" and ast.unparse(v) == "len(self.stru)":
+                val = "%s.atoms.length" % st["self"] + (" + 1" if st["attach"] == "append" else "")
+            elif d == "anisotropy" and isinstance(v, ast.Constant) and isinstance(v.value, bool):
+                val = "true" if v.value else "false"
+            elif d == "anisotropy" and isinstance(v, ast.Attribute) and v.attr == "anisotropy":
+                val = "%s.s.aniso" % self.atom(v.value, st)
+            else:
+                raise U("`%s`" % norm(s)[:70])
+            new = self.fresh("self")
+            self.L.append("let %s : CifRow.PState α := { %s with %s := %s.%s.set %s (%s) }" % (new, st["self"], d, st["self"], d, key, val))
+            st["self"] = new
+            return True
+        # a.anisotropy = True
+        if isinstance(tg, ast.Attribute) and tg.attr == "anisotropy" and isinstance(s.value, ast.Constant) and isinstance(s.value.value, bool):
+            cur = self.atom(tg.value, st)
+            new = self.fresh("a")
+            self.L.append("let %s : CifRow.Atom α := CifRow.Atom.liftS (AtomS.setAniso %s) %s" % (new, "true" if s.value.value else "false", cur))
+            st["a"] = new
+            return True
+        return False
+
+    def cond(self, t, st):
+        if isinstance(t, ast.Name):
+            return self.var(t, "bool")
+        if isinstance(t, ast.Compare) and len(t.ops) == 1 and isinstance(t.ops[0], (ast.In, ast.NotIn)) \
+                and (is_self_attr(t.comparators[0], "labelindex") or is_self_attr(t.comparators[0], "anisotropy")):
+            c = "(%s.%s %s).isSome" % (st["self"], t.comparators[0].attr, self.var(t.left, "label"))
+            return "!" + c if isinstance(t.ops[0], ast.NotIn) else c
+        raise U("condition `%s`" % ast.unparse(t)[:60])
+
+    def body(self, stmts, st, top):
+        k = 0
+        while k < len(stmts):
+            s = stmts[k]
+            k += 1
+            if self.simple(s, st):
+                continue
+            if isinstance(s, ast.Assign) and len(s.targets) == 1 and isinstance(s.targets[0], ast.Name) and top:
+                tg = self.ident(s.targets[0].id)
+                v = s.value
+                if tg in self.vars:
+                    raise U("`%s` is assigned twice" % tg)
+                # label = values[ilb]
+                if isinstance(v, ast.Subscript) and isinstance(v.value, ast.Name) and self.vars.get(v.value.id, ("", ""))[1] == "row":
+                    cell = self.fresh("v_" + tg)
+                    self.L.append("match %s[%s]? with" % (self.var(v.value, "row"), self.var(v.slice, "nat")))
+                    self.L.append("| none => Flow.raise Exc.IndexError")
+                    self.L.append("| some %s =>" % cell)
+                    self.L.append("let %s : String := %s.text" % (tg, cell))
+                    self.vars[tg] = (tg, "label")
+                    continue
+                # idx = self.labelindex[label]
+                if isinstance(v, ast.Subscript) and is_self_attr(v.value, "labelindex"):
+                    self.L.append("match %s.labelindex %s with" % (st["self"], self.var(v.slice, "label")))
+                    self.L.append("| none => Flow.raise Exc.KeyError")
+                    self.L.append("| some %s =>" % tg)
+                    self.vars[tg] = (tg, "nat")
+                    continue
+                # a = self.stru[idx]
+                if isinstance(v, ast.Subscript) and is_self_attr(v.value, "stru"):
+                    if st["attach"] is not None:
+                        raise U("a second atom in one round")
+                    idx = self.var(v.slice, "nat")
+                    new = self.fresh("a")
+                    self.L.append("match %s.atoms[%s]? with" % (st["self"], idx))
+                    self.L.append("| none => Flow.raise Exc.IndexError")
+                    self.L.append("| some %s =>" % new)
+                    st.update(a=new, apy=tg, attach=("set", idx))
+                    self.vars[tg] = (tg, "atom")
+                    continue
+                raise U("statement `%s`" % norm(s)[:70])
+            # self.stru.addNewAtom(); a = self.stru.getLastAtom()
+            if top and norm(s) == "self.stru.addNewAtom()":
+                nx = stmts[k] if k < len(stmts) else None
+                if not (nx is not None and isinstance(nx, ast.Assign) and len(nx.targets) == 1 and isinstance(nx.targets[0], ast.Name)
+                        and ast.unparse(nx.value) == "self.stru.getLastAtom()"):
+                    raise U("`self.stru.addNewAtom()` is not followed by `a = self.stru.getLastAtom()`")
+                k += 1
+                if st["attach"] is not None:
+                    raise U("a second atom in one round")
+                tg = self.ident(nx.targets[0].id)
+                if tg in self.vars:
+                    raise U("`%s` is assigned twice" % tg)
+                new = self.fresh("a")
+                self.L.append("let %s : CifRow.Atom α := CifRow.Atom.fresh lat" % new)
+                st.update(a=new, apy=tg, attach="append")
+                self.vars[tg] = (tg, "atom")
+                continue
+            # for fset, val in zip(prop_setters, values): fset(a, val)
+            if top and isinstance(s, ast.For):
+                ok = (not s.orelse and isinstance(s.target, ast.Tuple) and len(s.target.elts) == 2 and all(isinstance(x, ast.Name) for x in s.target.elts)
+                      and isinstance(s.iter, ast.Call) and ast.unparse(s.iter.func) == "zip" and len(s.iter.args) == 2 and not s.iter.keywords
+                      and len(s.body) == 1 and isinstance(s.body[0], ast.Expr) and isinstance(s.body[0].value, ast.Call))
+                if not ok:
+                    raise U("loop `%s`" % norm(s)[:70])
+                f, val = (x.id for x in s.target.elts)
+                c = s.body[0].value
+                if f == val or c.keywords or len(c.args) != 2 or ast.unparse(c.func) != f or ast.unparse(c.args[1]) != val:
+                    raise U("loop `%s`" % norm(s)[:70])
+                cur = self.atom(c.args[0], st)
+                new = self.fresh("a")
+                self.L.append("match runSetters %s %s %s with" % (self.var(s.iter.args[0], "setters"), self.var(s.iter.args[1], "row"), cur))
+                self.L.append("| Except.error e => Flow.raise e")
+                self.L.append("| Except.ok %s =>" % new)
+                st["a"] = new
+                continue
+            if isinstance(s, ast.If) and not s.orelse and top:
+                # if label == "?": continue / break
+                t = s.test
+                if len(s.body) == 1 and isinstance(s.body[0], (ast.Continue, ast.Break)):
+                    if not (isinstance(t, ast.Compare) and len(t.ops) == 1 and isinstance(t.ops[0], ast.Eq) and const_str(t.comparators[0])):
+                        raise U("condition `%s`" % ast.unparse(t)[:60])
+                    self.L.append("if %s == %s then Flow.%s %s else" % (self.var(t.left, "label"), pysrc.lean_str(t.comparators[0].value),
+                                                                       "next" if isinstance(s.body[0], ast.Continue) else "brk", self.commit(st)))
+                    continue
+                # if cond: assignments
+                c = self.fresh("c")
+                self.L.append("let %s : Bool := %s" % (c, self.cond(t, st)))
+                sub = dict(st)
+                self.body(list(s.body), sub, False)
+                for key, ty in (("a", "CifRow.Atom α"), ("self", "CifRow.PState α")):
+                    if sub[key] != st[key]:
+                        new = self.fresh(key)
+                        self.L.append("let %s : %s := if %s then %s else %s" % (new, ty, c, sub[key], st[key]))
+                        st[key] = new
+                continue
+            raise U("statement `%s`" % norm(s)[:70])
+        if top:
+            self.L.append("Flow.next %s" % self.commit(st))
+
+
 SECTION = ("section\nvariable {α : Type} [Add α] [Mul α] [Sub α] [Neg α] [Div α] [OfNat α 0] [OfNat α 1]\n"
            "  [OfNat α 2] [OfNat α 3] [OfNat α 8] [LT α] [DecidableLT α] [Elem α] [AdpConst α]\n\n")
 
@@ -453,6 +787,7 @@ def translate(report):
     # ---- the setters ----------------------------------------------------------------------------------------
     done = {}
     order = []
+    lfs = {}
 
     def do_setter(name, stack=()):
         if name in done:
@@ -470,11 +805,16 @@ def translate(report):
             do_setter(c, stack + (name,))
             if not done.get(c):
                 raise U("calls `%s`, which is not translatable" % c)
+            if lfs.get(c):
+                raise U("calls `%s`, which can raise (conditional exceptions are not supported)" % c)
+        lfs[name] = list(tx.lf)
         doc = "; ".join(norm(s) for s in strip_doc(fn.body))
         txt = "/-- `%s(a, value)`: %s -/\ndef %s (a : CifRow.Atom α) (value : CifRow.Value α) : CifRow.Atom α :=\n" % (name, doc.replace("-/", "- /"), lname(name))
         for ln in lines:
             txt += "  " + ln + "\n"
         txt += "  " + res + "\n\n"
+        txt += "/-- `%s(a, value)` does not raise: every `leading_float` call of its body succeeds -/\ndef %s_ok (value : CifRow.Value α) : Bool :=\n  %s\n\n" % (
+            name, lname(name), " && ".join(tx.lf) if tx.lf else "true")
         done[name] = txt
         order.append(name)
 
@@ -494,6 +834,9 @@ def translate(report):
         rows = ", ".join("(%s, %s)" % (pysrc.lean_str(n), lname(f)) for n, (_, f) in binding.items())
         gen.append("/-- `getattr(P_cif, name)` for the setter methods, in the order of the class body -/\n"
                    "def attrs : List (String × (CifRow.Atom α → CifRow.Value α → CifRow.Atom α)) :=\n  [%s]\n\n" % rows)
+        rows = ", ".join("(%s, ({ ok := %s_ok, run := %s } : Setter α))" % (pysrc.lean_str(n), lname(f), lname(f)) for n, (_, f) in binding.items())
+        gen.append("/-- `getattr(P_cif, name)` with the condition under which the call `f(a, value)` returns -/\n"
+                   "def attrs_chk : List (String × Setter α) :=\n  [%s]\n\n" % rows)
         info["methods"]["getattr"] = True
         have_attrs = True
     else:
@@ -532,6 +875,7 @@ def translate(report):
         out.append(fail("atom_setters", e))
 
     # ---- _get_atom_setters ----------------------------------------------------------------------------------
+    have_getter = False
     try:
         fn = pysrc.find_func(cls.body, "_get_atom_setters")
         if fn is None or [x.arg for x in fn.args.args] != ["cifloop"] or fn.decorator_list:
@@ -566,7 +910,10 @@ def translate(report):
         gen.append("/-- one round of the loop of `_get_atom_setters`: `getattr(P_cif, fncname)`; `none` = AttributeError -/\n"
                    "def get_atom_setter (p : String) : Option (CifRow.Atom α → CifRow.Value α → CifRow.Atom α) :=\n  (attrs (α := α)).lookup (fncName p)\n\n"
                    "/-- `_get_atom_setters(cifloop)`: the setters in the order of `cifloop.keys()` -/\n"
-                   "def get_atom_setters (keys : List String) : Option (List (CifRow.Atom α → CifRow.Value α → CifRow.Atom α)) :=\n  keys.mapM (get_atom_setter (α := α))\n\n")
+                   "def get_atom_setters (keys : List String) : Option (List (CifRow.Atom α → CifRow.Value α → CifRow.Atom α)) :=\n  keys.mapM (get_atom_setter (α := α))\n\n"
+                   "/-- `_get_atom_setters(cifloop)` with, for every setter, the condition under which its call returns -/\n"
+                   "def get_atom_setters_chk (keys : List String) : Option (List (Setter α)) :=\n  keys.mapM (fun p => (attrs_chk (α := α)).lookup (fncName p))\n\n")
+        have_getter = True
         info["methods"]["_get_atom_setters"] = True
     except pysrc.Untranslatable as e:
         out.append(fail("get_atom_setter", e))
@@ -595,8 +942,14 @@ def translate(report):
             raise U("`%s` is defined %d times" % (name, len(fs)))
         return fs[0]
 
-    text_fact("parse_atom_site_label", "`P_cif._parse_atom_site_label`, as written", lambda: only(cls.body, "_parse_atom_site_label"))
-    text_fact("parse_atom_site_aniso_label", "`P_cif._parse_atom_site_aniso_label`, as written", lambda: only(cls.body, "_parse_atom_site_aniso_label"))
+    for mname in ("_parse_atom_site_label", "_parse_atom_site_aniso_label"):
+        try:
+            if not have_getter:
+                raise U("_get_atom_setters is not translatable")
+            gen.append(LoopTx().method(only(cls.body, mname), lname(mname)))
+            info["methods"][mname] = True
+        except pysrc.Untranslatable as e:
+            out.append(fail(lname(mname), e))
     text_fact("parseCifBlock", "`P_cif._parseCifBlock`, as written", lambda: only(cls.body, "_parseCifBlock"))
     if acls is not None:
         def is_setter(f):
@@ -635,4 +988,4 @@ def translate(report):
 
     hdr = ("-- GENERATED by translate/src_cifrow.py from src/diffpy/structure/parsers/p_cif.py (+ atom.py, structure.py) — do not edit\n"
            "import DS.Model.CifRow\nnamespace DS.Src.CifRow\nset_option linter.unusedVariables false\nopen DS\n\n")
-    return hdr + "".join(out) + SECTION + "".join(gen) + "end\nend DS.Src.CifRow\n"
+    return hdr + "".join(out) + PRELUDE + SECTION + "".join(gen) + "end\nend DS.Src.CifRow\n"
